@@ -78,6 +78,27 @@ void d_string_append_c_array(DString *d, const char *s, size_t bytes) {
 	}
 }
 
+#ifdef SINK_NUM_GHOST
+/* -DSINK_NUM_GHOST: a formatted NUMBER is not expanded into digits (each digit costs a 64-bit division in the SAT
+ * encoding); the sink emits the placeholder byte SINK_NUM_MARK and records the value in a ghost list, in order.
+ * Formatting digits is libc's job (assumed); the units that use this mode compare the VALUES. */
+#define SINK_NUM_MARK '\x01'
+#ifndef SINK_NUMS
+#define SINK_NUMS 8
+#endif
+unsigned long g_sink_num[SINK_NUMS];
+size_t g_sink_nnum;
+static void sink_put(DString *d, char c);
+static void sink_unum(DString *d, unsigned long v, unsigned base, bool upper) {
+#ifndef VERIF_NATIVE
+	__CPROVER_assert(g_sink_nnum < SINK_NUMS, "ghost sink: number list (harness bound) not exceeded");
+#endif
+	if (g_sink_nnum < SINK_NUMS) {
+		g_sink_num[g_sink_nnum++] = v;
+	}
+	sink_put(d, SINK_NUM_MARK);
+}
+#else
 static void sink_unum(DString *d, unsigned long v, unsigned base, bool upper) {
 	char tmp[24];
 	int n = 0;
@@ -90,6 +111,30 @@ static void sink_unum(DString *d, unsigned long v, unsigned base, bool upper) {
 		sink_put(d, tmp[--n]);
 	}
 }
+#endif
+
+#ifndef VERIF_NATIVE
+/* CBMC does not apply the default argument promotions to variadic arguments: a `short` passed for %d is stored as a
+ * 2-byte object, and va_arg(ap, int) on it is an out-of-bounds read.  CBMC represents va_list as an array of pointers
+ * to the argument objects; read the integer with the width of the object that was actually passed. */
+static long sink_va_long(va_list * ap, bool is_unsigned) {
+	const void ** pp = *(const void ***)ap;
+	const void * p = *pp;
+	size_t sz = __CPROVER_OBJECT_SIZE(p);
+	long v;
+	if (sz == 1) { v = is_unsigned ? (long) * (const unsigned char *)p : (long) * (const signed char *)p; }
+	else if (sz == 2) { v = is_unsigned ? (long) * (const unsigned short *)p : (long) * (const short *)p; }
+	else if (sz == 4) { v = is_unsigned ? (long) * (const unsigned int *)p : (long) * (const int *)p; }
+	else { v = *(const long *)p; }
+	*(const void ***)ap = pp + 1;
+	return v;
+}
+#define VA_INT(ap, lng) sink_va_long(&(ap), false)
+#define VA_UINT(ap, lng) ((unsigned long)sink_va_long(&(ap), true))
+#else
+#define VA_INT(ap, lng) ((lng) ? va_arg(ap, long) : (long)va_arg(ap, int))
+#define VA_UINT(ap, lng) ((lng) ? va_arg(ap, unsigned long) : (unsigned long)va_arg(ap, unsigned))
+#endif
 
 static void sink_vprintf(DString *d, const char *f, va_list ap) {
 	for (size_t i = 0; f[i] != 0; i++) {
@@ -116,11 +161,11 @@ static void sink_vprintf(DString *d, const char *f, va_list ap) {
 				break;
 			}
 			case 'c':
-				sink_put(d, (char)va_arg(ap, int));
+				sink_put(d, (char)VA_INT(ap, false));
 				break;
 			case 'd':
 			case 'i': {
-				long v = lng ? va_arg(ap, long) : (long)va_arg(ap, int);
+				long v = VA_INT(ap, lng);
 				if (v < 0) {
 					sink_put(d, '-');
 					sink_unum(d, 0UL - (unsigned long)v, 10, false);
@@ -130,11 +175,11 @@ static void sink_vprintf(DString *d, const char *f, va_list ap) {
 				break;
 			}
 			case 'u':
-				sink_unum(d, lng ? va_arg(ap, unsigned long) : (unsigned long)va_arg(ap, unsigned), 10, false);
+				sink_unum(d, VA_UINT(ap, lng), 10, false);
 				break;
 			case 'x':
 			case 'X':
-				sink_unum(d, lng ? va_arg(ap, unsigned long) : (unsigned long)va_arg(ap, unsigned), 16, f[i] == 'X');
+				sink_unum(d, VA_UINT(ap, lng), 16, f[i] == 'X');
 				break;
 			case '%':
 				sink_put(d, '%');
